@@ -14,36 +14,35 @@ import TlsModel.RecordsParser
 namespace Tls
 variable {β : Type} [ByteLike β]
 
-theorem NoPanic.iteI {α : Type} {c : List β → Prop} [DecidablePred c] {p q : Parser β α}
-    (hp : NoPanic p) (hq : NoPanic q) : NoPanic (fun i => if c i then p i else q i) := by
+theorem Clean.iteI {α : Type} {c : List β → Prop} [DecidablePred c] {p q : Parser β α}
+    (hp : Clean p) (hq : Clean q) : Clean (fun i => if c i then p i else q i) := by
   intro i; by_cases h : c i <;> simp [h, hp i, hq i]
 
 /-- a sub-parser run on an already extracted slice (`let (_, m) = g(raw)?; Ok((i, f(m)))`) -/
-theorem NoPanic.sub {α γ : Type} {g : Parser β α} {f : α → γ} (hg : NoPanic g) (x : List β) :
-    NoPanic (fun i => (g x).bind fun _ m => Res.ok i (f m)) := by
+theorem Clean.sub {α γ : Type} {g : Parser β α} {f : α → γ} (hg : Clean g) (x : List β) :
+    Clean (fun i => (g x).bind fun _ m => Res.ok i (f m)) := by
   intro i
-  show ((g x).bind fun _ m => Res.ok i (f m)) ≠ .panic
   have := hg x
   cases h : g x <;> simp_all [Res.bind]
 
-theorem NoPanic.okFn {α : Type} (r : List β) (f : List β → α) : NoPanic (fun i => Res.ok r (f i)) := by
+theorem Clean.okFn {α : Type} (r : List β) (f : List β → α) : Clean (fun i => Res.ok r (f i)) := by
   intro i; simp
 
-/-- closure-rule prover for `NoPanic` goals; extended with `macro_rules` after each theorem -/
-syntax "nopanic_step" : tactic
-macro_rules | `(tactic| nopanic_step) => `(tactic| first
+/-- closure-rule prover for `Clean` goals; extended with `macro_rules` after each theorem -/
+syntax "clean_step" : tactic
+macro_rules | `(tactic| clean_step) => `(tactic| first
   | assumption
-  | exact NoPanic.pure _ | exact NoPanic.okFn _ _ | exact NoPanic.error _ | exact NoPanic.take _ | exact NoPanic.beU _ | exact NoPanic.tag _
-  | refine NoPanic.lengthData ?_ | refine NoPanic.mapParser ?_ ?_ | refine NoPanic.mapP ?_ | refine NoPanic.verify ?_
-  | refine NoPanic.cond ?_ | refine NoPanic.opt ?_ | refine NoPanic.complete ?_ | refine NoPanic.alt ?_ ?_
-  | refine NoPanic.pair ?_ ?_ | refine NoPanic.many0 ?_ | refine NoPanic.many1 ?_ | refine NoPanic.lengthCount ?_ ?_
-  | refine NoPanic.iteI ?_ ?_
-  | refine NoPanic.sub ?_ _
-  | refine NoPanic.bind ?_ (fun _ => ?_)
+  | exact Clean.pure _ | exact Clean.okFn _ _ | exact Clean.error _ | exact Clean.take _ | exact Clean.beU _ | exact Clean.tag _
+  | refine Clean.lengthData ?_ | refine Clean.mapParser ?_ ?_ | refine Clean.mapP ?_ | refine Clean.verify ?_
+  | refine Clean.cond ?_ | refine Clean.opt ?_ | refine Clean.complete ?_ | refine Clean.alt ?_ ?_
+  | refine Clean.pair ?_ ?_ | refine Clean.many0 ?_ | refine Clean.many1 ?_ | refine Clean.lengthCount ?_ ?_
+  | refine Clean.iteI ?_ ?_
+  | refine Clean.sub ?_ _
+  | refine Clean.bind ?_ (fun _ => ?_)
   | exact fun _ h => Res.noConfusion h
-  | refine NoPanic.ite' ?_ ?_)
+  | refine Clean.ite' ?_ ?_)
 
-macro "nopanic" : tactic => `(tactic| repeat nopanic_step)
+macro "clean" : tactic => `(tactic| repeat clean_step)
 
 theorem chunks2_isSome_of_even : ∀ (l : List β), l.length % 2 = 0 → (chunks2 l).isSome
   | [], _ => rfl
@@ -54,7 +53,7 @@ theorem chunks2_isSome_of_even : ∀ (l : List β), l.length % 2 = 0 → (chunks
     simp [chunks2, Option.isSome_map, ih]
 termination_by l => l.length
 
-theorem parseCipherSuites_noPanic (len : Nat) : NoPanic (parseCipherSuites len : Parser β (List Nat)) := by
+theorem parseCipherSuites_clean (len : Nat) : Clean (parseCipherSuites len : Parser β (List Nat)) := by
   intro i; unfold parseCipherSuites
   split; · simp
   split; · simp
@@ -65,7 +64,7 @@ theorem parseCipherSuites_noPanic (len : Nat) : NoPanic (parseCipherSuites len :
   have := chunks2_isSome_of_even _ hev
   cases h : chunks2 (i.take len) <;> simp_all
 
-theorem parseCompressionsAlgs_noPanic (len : Nat) : NoPanic (parseCompressionsAlgs len : Parser β (List Nat)) := by
+theorem parseCompressionsAlgs_clean (len : Nat) : Clean (parseCompressionsAlgs len : Parser β (List Nat)) := by
   intro i; unfold parseCompressionsAlgs
   split; · simp
   split; · simp
@@ -73,7 +72,7 @@ theorem parseCompressionsAlgs_noPanic (len : Nat) : NoPanic (parseCompressionsAl
   have hle : len ≤ i.length := by omega
   simp [hle]
 
-theorem parseU16All_noPanic : NoPanic (parseU16All : Parser β (List Nat)) := by
+theorem parseU16All_clean : Clean (parseU16All : Parser β (List Nat)) := by
   intro i; unfold parseU16All
   simp only
   split; · simp
@@ -84,449 +83,532 @@ theorem parseU16All_noPanic : NoPanic (parseU16All : Parser β (List Nat)) := by
   simp only [Nat.le_refl, if_true]
   cases h : chunks2 (i.take i.length) <;> simp_all
 
-macro_rules | `(tactic| nopanic_step) => `(tactic| first
-  | exact parseCipherSuites_noPanic _ | exact parseCompressionsAlgs_noPanic _ | exact parseU16All_noPanic)
+macro_rules | `(tactic| clean_step) => `(tactic| first
+  | exact parseCipherSuites_clean _ | exact parseCompressionsAlgs_clean _ | exact parseU16All_clean)
 
-theorem optExtBlock_noPanic : NoPanic (optExtBlock : Parser β _) := by unfold optExtBlock; nopanic
-macro_rules | `(tactic| nopanic_step) => `(tactic| exact optExtBlock_noPanic)
+theorem optExtBlock_clean : Clean (optExtBlock : Parser β _) := by unfold optExtBlock; clean
+macro_rules | `(tactic| clean_step) => `(tactic| exact optExtBlock_clean)
 
-theorem parseClientHello_noPanic : NoPanic (parseClientHello : Parser β _) := by
-  unfold parseClientHello; nopanic
+theorem parseClientHello_clean : Clean (parseClientHello : Parser β _) := by
+  unfold parseClientHello; clean
 
 
-theorem NoPanic.peek {α γ : Type} {p : Parser β α} {q : α → Parser β γ} (hp : NoPanic p) (hq : ∀ x, NoPanic (q x)) :
-    NoPanic (fun i => (p i).bind fun _ x => q x i) := by
+theorem Clean.peek {α γ : Type} {p : Parser β α} {q : α → Parser β γ} (hp : Clean p) (hq : ∀ x, Clean (q x)) :
+    Clean (fun i => (p i).bind fun _ x => q x i) := by
   intro i
-  show ((p i).bind fun _ x => q x i) ≠ .panic
   have := hp i
   cases h : p i <;> simp_all [Res.bind]
   exact hq _ _
 
-theorem parseServerHelloV12_noPanic (hasExt : Bool) : NoPanic (parseServerHelloV12 hasExt : Parser β _) := by
-  unfold parseServerHelloV12; nopanic
-macro_rules | `(tactic| nopanic_step) => `(tactic| exact parseServerHelloV12_noPanic _)
+theorem parseServerHelloV12_clean (hasExt : Bool) : Clean (parseServerHelloV12 hasExt : Parser β _) := by
+  unfold parseServerHelloV12; clean
+macro_rules | `(tactic| clean_step) => `(tactic| exact parseServerHelloV12_clean _)
 
-theorem parseServerHello13d18_noPanic : NoPanic (parseServerHello13d18 : Parser β _) := by
-  unfold parseServerHello13d18; nopanic
-macro_rules | `(tactic| nopanic_step) => `(tactic| exact parseServerHello13d18_noPanic)
+theorem parseServerHello13d18_clean : Clean (parseServerHello13d18 : Parser β _) := by
+  unfold parseServerHello13d18; clean
+macro_rules | `(tactic| clean_step) => `(tactic| exact parseServerHello13d18_clean)
 
-theorem parseServerHello_noPanic : NoPanic (parseServerHello : Parser β _) := by
+theorem parseServerHello_clean : Clean (parseServerHello : Parser β _) := by
   unfold parseServerHello
-  refine NoPanic.peek (NoPanic.beU _) (fun v => ?_)
-  nopanic
-macro_rules | `(tactic| nopanic_step) => `(tactic| exact parseServerHello_noPanic)
+  refine Clean.peek (Clean.beU _) (fun v => ?_)
+  clean
+macro_rules | `(tactic| clean_step) => `(tactic| exact parseServerHello_clean)
 
-theorem parseMsgServerHello_noPanic : NoPanic (parseMsgServerHello : Parser β _) := by
+theorem parseMsgServerHello_clean : Clean (parseMsgServerHello : Parser β _) := by
   unfold parseMsgServerHello
-  refine NoPanic.peek (NoPanic.beU _) (fun v => ?_)
-  nopanic
-macro_rules | `(tactic| nopanic_step) => `(tactic| exact parseMsgServerHello_noPanic)
+  refine Clean.peek (Clean.beU _) (fun v => ?_)
+  clean
+macro_rules | `(tactic| clean_step) => `(tactic| exact parseMsgServerHello_clean)
 
-theorem parseNewSessionTicket_noPanic (len : Nat) : NoPanic (parseNewSessionTicket len : Parser β _) := by
+theorem parseNewSessionTicket_clean (len : Nat) : Clean (parseNewSessionTicket len : Parser β _) := by
   unfold parseNewSessionTicket
   by_cases h : len < 4
-  · simp only [h, if_true]; nopanic
+  · simp only [h, if_true]; clean
   · have h4 : 4 ≤ len := by omega
-    simp only [h, h4, if_false, if_true]; nopanic
-macro_rules | `(tactic| nopanic_step) => `(tactic| exact parseNewSessionTicket_noPanic _)
+    simp only [h, h4, if_false, if_true]; clean
+macro_rules | `(tactic| clean_step) => `(tactic| exact parseNewSessionTicket_clean _)
 
-theorem parseHelloRetryRequest_noPanic : NoPanic (parseHelloRetryRequest : Parser β _) := by
-  unfold parseHelloRetryRequest; nopanic
-macro_rules | `(tactic| nopanic_step) => `(tactic| exact parseHelloRetryRequest_noPanic)
+theorem parseHelloRetryRequest_clean : Clean (parseHelloRetryRequest : Parser β _) := by
+  unfold parseHelloRetryRequest; clean
+macro_rules | `(tactic| clean_step) => `(tactic| exact parseHelloRetryRequest_clean)
 
-theorem parseCerts_noPanic : NoPanic (parseCerts : Parser β _) := by
-  unfold parseCerts; nopanic
-macro_rules | `(tactic| nopanic_step) => `(tactic| exact parseCerts_noPanic)
+theorem parseCerts_clean : Clean (parseCerts : Parser β _) := by
+  unfold parseCerts; clean
+macro_rules | `(tactic| clean_step) => `(tactic| exact parseCerts_clean)
 
-theorem parseCertificate_noPanic : NoPanic (parseCertificate : Parser β _) := by
-  unfold parseCertificate; nopanic
-macro_rules | `(tactic| nopanic_step) => `(tactic| exact parseCertificate_noPanic)
+theorem parseCertificate_clean : Clean (parseCertificate : Parser β _) := by
+  unfold parseCertificate; clean
+macro_rules | `(tactic| clean_step) => `(tactic| exact parseCertificate_clean)
 
-theorem parseCaList_noPanic : NoPanic (parseCaList : Parser β _) := by
-  unfold parseCaList; nopanic
-macro_rules | `(tactic| nopanic_step) => `(tactic| exact parseCaList_noPanic)
+theorem parseCaList_clean : Clean (parseCaList : Parser β _) := by
+  unfold parseCaList; clean
+macro_rules | `(tactic| clean_step) => `(tactic| exact parseCaList_clean)
 
-theorem parseCertRequestNoSigAlg_noPanic : NoPanic (parseCertRequestNoSigAlg : Parser β _) := by
-  unfold parseCertRequestNoSigAlg; nopanic
-macro_rules | `(tactic| nopanic_step) => `(tactic| exact parseCertRequestNoSigAlg_noPanic)
+theorem parseCertRequestNoSigAlg_clean : Clean (parseCertRequestNoSigAlg : Parser β _) := by
+  unfold parseCertRequestNoSigAlg; clean
+macro_rules | `(tactic| clean_step) => `(tactic| exact parseCertRequestNoSigAlg_clean)
 
-theorem parseCertRequestFull_noPanic : NoPanic (parseCertRequestFull : Parser β _) := by
-  unfold parseCertRequestFull; nopanic
-macro_rules | `(tactic| nopanic_step) => `(tactic| exact parseCertRequestFull_noPanic)
+theorem parseCertRequestFull_clean : Clean (parseCertRequestFull : Parser β _) := by
+  unfold parseCertRequestFull; clean
+macro_rules | `(tactic| clean_step) => `(tactic| exact parseCertRequestFull_clean)
 
-theorem parseCertRequest_noPanic : NoPanic (parseCertRequest : Parser β _) := by
-  unfold parseCertRequest; nopanic
-macro_rules | `(tactic| nopanic_step) => `(tactic| exact parseCertRequest_noPanic)
+theorem parseCertRequest_clean : Clean (parseCertRequest : Parser β _) := by
+  unfold parseCertRequest; clean
+macro_rules | `(tactic| clean_step) => `(tactic| exact parseCertRequest_clean)
 
-theorem parseCertStatus_noPanic : NoPanic (parseCertStatus : Parser β _) := by
-  unfold parseCertStatus; nopanic
-macro_rules | `(tactic| nopanic_step) => `(tactic| exact parseCertStatus_noPanic)
+theorem parseCertStatus_clean : Clean (parseCertStatus : Parser β _) := by
+  unfold parseCertStatus; clean
+macro_rules | `(tactic| clean_step) => `(tactic| exact parseCertStatus_clean)
 
-theorem parseNextProtocol_noPanic : NoPanic (parseNextProtocol : Parser β _) := by
-  unfold parseNextProtocol; nopanic
-macro_rules | `(tactic| nopanic_step) => `(tactic| exact parseNextProtocol_noPanic)
+theorem parseNextProtocol_clean : Clean (parseNextProtocol : Parser β _) := by
+  unfold parseNextProtocol; clean
+macro_rules | `(tactic| clean_step) => `(tactic| exact parseNextProtocol_clean)
 
-theorem parseHandshakeBody_noPanic (ht hl : Nat) : NoPanic (parseHandshakeBody ht hl : Parser β _) := by
-  unfold parseHandshakeBody; nopanic
-macro_rules | `(tactic| nopanic_step) => `(tactic| exact parseHandshakeBody_noPanic _)
+theorem parseHandshakeBody_clean (ht hl : Nat) : Clean (parseHandshakeBody ht hl : Parser β _) := by
+  unfold parseHandshakeBody; clean
+macro_rules | `(tactic| clean_step) => `(tactic| exact parseHandshakeBody_clean _)
 
-theorem parseMessageHandshake_noPanic : NoPanic (parseMessageHandshake : Parser β _) := by
-  unfold parseMessageHandshake; nopanic
-macro_rules | `(tactic| nopanic_step) => `(tactic| exact parseMessageHandshake_noPanic)
+theorem parseMessageHandshake_clean : Clean (parseMessageHandshake : Parser β _) := by
+  unfold parseMessageHandshake; clean
+macro_rules | `(tactic| clean_step) => `(tactic| exact parseMessageHandshake_clean)
 
-theorem parseRecordHeader_noPanic : NoPanic (parseRecordHeader : Parser β _) := by
-  unfold parseRecordHeader; nopanic
-macro_rules | `(tactic| nopanic_step) => `(tactic| exact parseRecordHeader_noPanic)
+theorem parseRecordHeader_clean : Clean (parseRecordHeader : Parser β _) := by
+  unfold parseRecordHeader; clean
+macro_rules | `(tactic| clean_step) => `(tactic| exact parseRecordHeader_clean)
 
-theorem parseMessageCCS_noPanic : NoPanic (parseMessageCCS : Parser β _) := by
-  unfold parseMessageCCS; nopanic
-macro_rules | `(tactic| nopanic_step) => `(tactic| exact parseMessageCCS_noPanic)
+theorem parseMessageCCS_clean : Clean (parseMessageCCS : Parser β _) := by
+  unfold parseMessageCCS; clean
+macro_rules | `(tactic| clean_step) => `(tactic| exact parseMessageCCS_clean)
 
-theorem parseMessageAlert_noPanic : NoPanic (parseMessageAlert : Parser β _) := by
-  unfold parseMessageAlert; nopanic
-macro_rules | `(tactic| nopanic_step) => `(tactic| exact parseMessageAlert_noPanic)
+theorem parseMessageAlert_clean : Clean (parseMessageAlert : Parser β _) := by
+  unfold parseMessageAlert; clean
+macro_rules | `(tactic| clean_step) => `(tactic| exact parseMessageAlert_clean)
 
-theorem parseMessageAppData_noPanic : NoPanic (parseMessageAppData : Parser β _) := by
+theorem parseMessageAppData_clean : Clean (parseMessageAppData : Parser β _) := by
   intro i; simp [parseMessageAppData]
-macro_rules | `(tactic| nopanic_step) => `(tactic| exact parseMessageAppData_noPanic)
+macro_rules | `(tactic| clean_step) => `(tactic| exact parseMessageAppData_clean)
 
-theorem parseMessageHeartbeat_noPanic (l : Nat) : NoPanic (parseMessageHeartbeat l : Parser β _) := by
-  unfold parseMessageHeartbeat; nopanic
-macro_rules | `(tactic| nopanic_step) => `(tactic| exact parseMessageHeartbeat_noPanic _)
+theorem parseMessageHeartbeat_clean (l : Nat) : Clean (parseMessageHeartbeat l : Parser β _) := by
+  unfold parseMessageHeartbeat; clean
+macro_rules | `(tactic| clean_step) => `(tactic| exact parseMessageHeartbeat_clean _)
 
-theorem parseRecordWithHeader_noPanic (hdr : RecordHeader) : NoPanic (parseRecordWithHeader hdr : Parser β _) := by
-  unfold parseRecordWithHeader; nopanic
-macro_rules | `(tactic| nopanic_step) => `(tactic| exact parseRecordWithHeader_noPanic _)
+theorem parseRecordWithHeader_clean (hdr : RecordHeader) : Clean (parseRecordWithHeader hdr : Parser β _) := by
+  unfold parseRecordWithHeader; clean
+macro_rules | `(tactic| clean_step) => `(tactic| exact parseRecordWithHeader_clean _)
 
-theorem parsePlaintext_noPanic : NoPanic (parsePlaintext : Parser β _) := by
-  unfold parsePlaintext; nopanic
-macro_rules | `(tactic| nopanic_step) => `(tactic| exact parsePlaintext_noPanic)
+theorem parsePlaintext_clean : Clean (parsePlaintext : Parser β _) := by
+  unfold parsePlaintext; clean
+macro_rules | `(tactic| clean_step) => `(tactic| exact parsePlaintext_clean)
 
-theorem parseEncrypted_noPanic : NoPanic (parseEncrypted : Parser β _) := by
-  unfold parseEncrypted; nopanic
-macro_rules | `(tactic| nopanic_step) => `(tactic| exact parseEncrypted_noPanic)
+theorem parseEncrypted_clean : Clean (parseEncrypted : Parser β _) := by
+  unfold parseEncrypted; clean
+macro_rules | `(tactic| clean_step) => `(tactic| exact parseEncrypted_clean)
 
-theorem parseRawRecord_noPanic : NoPanic (parseRawRecord : Parser β _) := by
-  unfold parseRawRecord; nopanic
-macro_rules | `(tactic| nopanic_step) => `(tactic| exact parseRawRecord_noPanic)
+theorem parseRawRecord_clean : Clean (parseRawRecord : Parser β _) := by
+  unfold parseRawRecord; clean
+macro_rules | `(tactic| clean_step) => `(tactic| exact parseRawRecord_clean)
 
-theorem tlsParser_noPanic : NoPanic (tlsParser : Parser β _) := by
-  unfold tlsParser; nopanic
-macro_rules | `(tactic| nopanic_step) => `(tactic| exact tlsParser_noPanic)
+theorem tlsParser_clean : Clean (tlsParser : Parser β _) := by
+  unfold tlsParser; clean
+macro_rules | `(tactic| clean_step) => `(tactic| exact tlsParser_clean)
 
-theorem tlsParserMany_noPanic : NoPanic (tlsParserMany : Parser β _) := by
-  unfold tlsParserMany; nopanic
-macro_rules | `(tactic| nopanic_step) => `(tactic| exact tlsParserMany_noPanic)
+theorem tlsParserMany_clean : Clean (tlsParserMany : Parser β _) := by
+  unfold tlsParserMany; clean
+macro_rules | `(tactic| clean_step) => `(tactic| exact tlsParserMany_clean)
 
-theorem parseSniHostname_noPanic : NoPanic (parseSniHostname : Parser β _) := by
-  unfold parseSniHostname; nopanic
-macro_rules | `(tactic| nopanic_step) => `(tactic| exact parseSniHostname_noPanic)
+theorem parseSniHostname_clean : Clean (parseSniHostname : Parser β _) := by
+  unfold parseSniHostname; clean
+macro_rules | `(tactic| clean_step) => `(tactic| exact parseSniHostname_clean)
 
-theorem parseSniContent_noPanic : NoPanic (parseSniContent : Parser β _) := by
-  unfold parseSniContent; nopanic
-macro_rules | `(tactic| nopanic_step) => `(tactic| exact parseSniContent_noPanic)
+theorem parseSniContent_clean : Clean (parseSniContent : Parser β _) := by
+  unfold parseSniContent; clean
+macro_rules | `(tactic| clean_step) => `(tactic| exact parseSniContent_clean)
 
-theorem parseMaxFragmentLengthContent_noPanic : NoPanic (parseMaxFragmentLengthContent : Parser β _) := by
-  unfold parseMaxFragmentLengthContent; nopanic
-macro_rules | `(tactic| nopanic_step) => `(tactic| exact parseMaxFragmentLengthContent_noPanic)
+theorem parseMaxFragmentLengthContent_clean : Clean (parseMaxFragmentLengthContent : Parser β _) := by
+  unfold parseMaxFragmentLengthContent; clean
+macro_rules | `(tactic| clean_step) => `(tactic| exact parseMaxFragmentLengthContent_clean)
 
-theorem parseStatusRequestContent_noPanic (extLen : Nat) : NoPanic (parseStatusRequestContent extLen : Parser β _) := by
+theorem parseStatusRequestContent_clean (extLen : Nat) : Clean (parseStatusRequestContent extLen : Parser β _) := by
   unfold parseStatusRequestContent
   by_cases h : extLen = 0
-  · simp only [h, if_true]; nopanic
+  · simp only [h, if_true]; clean
   · have h1 : 1 ≤ extLen := by omega
-    simp only [h, h1, if_false, if_true]; nopanic
-macro_rules | `(tactic| nopanic_step) => `(tactic| exact parseStatusRequestContent_noPanic _)
+    simp only [h, h1, if_false, if_true]; clean
+macro_rules | `(tactic| clean_step) => `(tactic| exact parseStatusRequestContent_clean _)
 
-theorem parseEllipticCurvesContent_noPanic : NoPanic (parseEllipticCurvesContent : Parser β _) := by
-  unfold parseEllipticCurvesContent; nopanic
-macro_rules | `(tactic| nopanic_step) => `(tactic| exact parseEllipticCurvesContent_noPanic)
+theorem parseEllipticCurvesContent_clean : Clean (parseEllipticCurvesContent : Parser β _) := by
+  unfold parseEllipticCurvesContent; clean
+macro_rules | `(tactic| clean_step) => `(tactic| exact parseEllipticCurvesContent_clean)
 
-theorem parseEcPointFormatsContent_noPanic : NoPanic (parseEcPointFormatsContent : Parser β _) := by
-  unfold parseEcPointFormatsContent; nopanic
-macro_rules | `(tactic| nopanic_step) => `(tactic| exact parseEcPointFormatsContent_noPanic)
+theorem parseEcPointFormatsContent_clean : Clean (parseEcPointFormatsContent : Parser β _) := by
+  unfold parseEcPointFormatsContent; clean
+macro_rules | `(tactic| clean_step) => `(tactic| exact parseEcPointFormatsContent_clean)
 
-theorem parseSignatureAlgorithmsContent_noPanic : NoPanic (parseSignatureAlgorithmsContent : Parser β _) := by
-  unfold parseSignatureAlgorithmsContent; nopanic
-macro_rules | `(tactic| nopanic_step) => `(tactic| exact parseSignatureAlgorithmsContent_noPanic)
+theorem parseSignatureAlgorithmsContent_clean : Clean (parseSignatureAlgorithmsContent : Parser β _) := by
+  unfold parseSignatureAlgorithmsContent; clean
+macro_rules | `(tactic| clean_step) => `(tactic| exact parseSignatureAlgorithmsContent_clean)
 
-theorem parseHeartbeatContent_noPanic : NoPanic (parseHeartbeatContent : Parser β _) := by
-  unfold parseHeartbeatContent; nopanic
-macro_rules | `(tactic| nopanic_step) => `(tactic| exact parseHeartbeatContent_noPanic)
+theorem parseHeartbeatContent_clean : Clean (parseHeartbeatContent : Parser β _) := by
+  unfold parseHeartbeatContent; clean
+macro_rules | `(tactic| clean_step) => `(tactic| exact parseHeartbeatContent_clean)
 
-theorem parseAlpnContent_noPanic : NoPanic (parseAlpnContent : Parser β _) := by
-  unfold parseAlpnContent; nopanic
-macro_rules | `(tactic| nopanic_step) => `(tactic| exact parseAlpnContent_noPanic)
+theorem parseAlpnContent_clean : Clean (parseAlpnContent : Parser β _) := by
+  unfold parseAlpnContent; clean
+macro_rules | `(tactic| clean_step) => `(tactic| exact parseAlpnContent_clean)
 
-theorem parseSctContent_noPanic : NoPanic (parseSctContent : Parser β _) := by
-  unfold parseSctContent; nopanic
-macro_rules | `(tactic| nopanic_step) => `(tactic| exact parseSctContent_noPanic)
+theorem parseSctContent_clean : Clean (parseSctContent : Parser β _) := by
+  unfold parseSctContent; clean
+macro_rules | `(tactic| clean_step) => `(tactic| exact parseSctContent_clean)
 
-theorem parseEmptyContent_noPanic (extLen : Nat) (v : Extension β) : NoPanic (parseEmptyContent extLen v : Parser β _) := by
-  unfold parseEmptyContent; nopanic
-macro_rules | `(tactic| nopanic_step) => `(tactic| exact parseEmptyContent_noPanic _ _)
+theorem parseEmptyContent_clean (extLen : Nat) (v : Extension β) : Clean (parseEmptyContent extLen v : Parser β _) := by
+  unfold parseEmptyContent; clean
+macro_rules | `(tactic| clean_step) => `(tactic| exact parseEmptyContent_clean _ _)
 
-theorem parseEarlyDataContent_noPanic (extLen : Nat) : NoPanic (parseEarlyDataContent extLen : Parser β _) := by
-  unfold parseEarlyDataContent; nopanic
-macro_rules | `(tactic| nopanic_step) => `(tactic| exact parseEarlyDataContent_noPanic _)
+theorem parseEarlyDataContent_clean (extLen : Nat) : Clean (parseEarlyDataContent extLen : Parser β _) := by
+  unfold parseEarlyDataContent; clean
+macro_rules | `(tactic| clean_step) => `(tactic| exact parseEarlyDataContent_clean _)
 
-theorem parseSupportedVersionsContent_noPanic (extLen : Nat) : NoPanic (parseSupportedVersionsContent extLen : Parser β _) := by
+theorem parseSupportedVersionsContent_clean (extLen : Nat) : Clean (parseSupportedVersionsContent extLen : Parser β _) := by
   unfold parseSupportedVersionsContent
   by_cases h2 : extLen = 2
-  · simp only [h2, if_true]; nopanic
+  · simp only [h2, if_true]; clean
   · by_cases h : extLen = 0
-    · simp only [h, if_true]; nopanic
+    · simp only [h, if_true]; clean
     · have h1 : 1 ≤ extLen := by omega
-      simp only [h2, h, h1, if_false, if_true]; nopanic
-macro_rules | `(tactic| nopanic_step) => `(tactic| exact parseSupportedVersionsContent_noPanic _)
+      simp only [h2, h, h1, if_false, if_true]; clean
+macro_rules | `(tactic| clean_step) => `(tactic| exact parseSupportedVersionsContent_clean _)
 
-theorem parsePskModesContent_noPanic : NoPanic (parsePskModesContent : Parser β _) := by
-  unfold parsePskModesContent; nopanic
-macro_rules | `(tactic| nopanic_step) => `(tactic| exact parsePskModesContent_noPanic)
+theorem parsePskModesContent_clean : Clean (parsePskModesContent : Parser β _) := by
+  unfold parsePskModesContent; clean
+macro_rules | `(tactic| clean_step) => `(tactic| exact parsePskModesContent_clean)
 
-theorem parseRenegotiationInfoContent_noPanic : NoPanic (parseRenegotiationInfoContent : Parser β _) := by
-  unfold parseRenegotiationInfoContent; nopanic
-macro_rules | `(tactic| nopanic_step) => `(tactic| exact parseRenegotiationInfoContent_noPanic)
+theorem parseRenegotiationInfoContent_clean : Clean (parseRenegotiationInfoContent : Parser β _) := by
+  unfold parseRenegotiationInfoContent; clean
+macro_rules | `(tactic| clean_step) => `(tactic| exact parseRenegotiationInfoContent_clean)
 
-theorem parseEncryptedServerName_noPanic : NoPanic (parseEncryptedServerName : Parser β _) := by
-  unfold parseEncryptedServerName; nopanic
-macro_rules | `(tactic| nopanic_step) => `(tactic| exact parseEncryptedServerName_noPanic)
+theorem parseEncryptedServerName_clean : Clean (parseEncryptedServerName : Parser β _) := by
+  unfold parseEncryptedServerName; clean
+macro_rules | `(tactic| clean_step) => `(tactic| exact parseEncryptedServerName_clean)
 
-theorem parseOidFilter_noPanic : NoPanic (parseOidFilter : Parser β _) := by
-  unfold parseOidFilter; nopanic
-macro_rules | `(tactic| nopanic_step) => `(tactic| exact parseOidFilter_noPanic)
+theorem parseOidFilter_clean : Clean (parseOidFilter : Parser β _) := by
+  unfold parseOidFilter; clean
+macro_rules | `(tactic| clean_step) => `(tactic| exact parseOidFilter_clean)
 
-theorem parseOidFilters_noPanic : NoPanic (parseOidFilters : Parser β _) := by
-  unfold parseOidFilters; nopanic
-macro_rules | `(tactic| nopanic_step) => `(tactic| exact parseOidFilters_noPanic)
+theorem parseOidFilters_clean : Clean (parseOidFilters : Parser β _) := by
+  unfold parseOidFilters; clean
+macro_rules | `(tactic| clean_step) => `(tactic| exact parseOidFilters_clean)
 
-theorem parseExtensionUnknown_noPanic : NoPanic (parseExtensionUnknown : Parser β _) := by
-  unfold parseExtensionUnknown; nopanic
-macro_rules | `(tactic| nopanic_step) => `(tactic| exact parseExtensionUnknown_noPanic)
+theorem parseExtensionUnknown_clean : Clean (parseExtensionUnknown : Parser β _) := by
+  unfold parseExtensionUnknown; clean
+macro_rules | `(tactic| clean_step) => `(tactic| exact parseExtensionUnknown_clean)
 
-theorem extTable_noPanic (extLen : Nat) : ∀ e ∈ (extTable extLen : List (Nat × Arms × Parser β (Extension β))), NoPanic e.2.2 := by
+theorem extTable_clean (extLen : Nat) : ∀ e ∈ (extTable extLen : List (Nat × Arms × Parser β (Extension β))), Clean e.2.2 := by
   simp only [extTable, List.forall_mem_cons, List.not_mem_nil, false_imp_iff, implies_true, and_true]
-  refine ⟨?_, ?_, ?_, ?_, ?_, ?_, ?_, ?_, ?_, ?_, ?_, ?_, ?_, ?_, ?_, ?_, ?_, ?_, ?_, ?_, ?_, ?_, ?_, ?_, ?_, ?_⟩ <;> nopanic
+  refine ⟨?_, ?_, ?_, ?_, ?_, ?_, ?_, ?_, ?_, ?_, ?_, ?_, ?_, ?_, ?_, ?_, ?_, ?_, ?_, ?_, ?_, ?_, ?_, ?_, ?_, ?_⟩ <;> clean
 
-theorem extContentParser_noPanic (d : Dispatcher) (t extLen : Nat) (p : Parser β (Extension β))
-    (h : extContentParser d t extLen = some p) : NoPanic p := by
+theorem extContentParser_clean (d : Dispatcher) (t extLen : Nat) (p : Parser β (Extension β))
+    (h : extContentParser d t extLen = some p) : Clean p := by
   unfold extContentParser at h
   cases hf : (extTable extLen : List (Nat × Arms × Parser β (Extension β))).find? (fun e => e.1 == t && e.2.1.has d) with
   | none => simp [hf] at h
   | some e =>
     simp [hf] at h
     subst h
-    exact extTable_noPanic extLen e (List.mem_of_find?_eq_some hf)
+    exact extTable_clean extLen e (List.mem_of_find?_eq_some hf)
 
-theorem parseExtensionD_noPanic (d : Dispatcher) : NoPanic (parseExtensionD d : Parser β _) := by
+theorem parseExtensionD_clean (d : Dispatcher) : Clean (parseExtensionD d : Parser β _) := by
   unfold parseExtensionD
-  refine NoPanic.bind (NoPanic.beU _) (fun t => ?_)
-  refine NoPanic.bind (NoPanic.lengthData (NoPanic.beU _)) (fun data => ?_)
+  refine Clean.bind (Clean.beU _) (fun t => ?_)
+  refine Clean.bind (Clean.lengthData (Clean.beU _)) (fun data => ?_)
   intro i
   simp only
   split
   · simp
   · split
     · rename_i p hp
-      have := extContentParser_noPanic d t _ p hp data
+      have := extContentParser_clean d t _ p hp data
       cases h : p data <;> simp_all [Res.bind]
     · simp
-macro_rules | `(tactic| nopanic_step) => `(tactic| exact parseExtensionD_noPanic _)
+macro_rules | `(tactic| clean_step) => `(tactic| exact parseExtensionD_clean _)
 
-theorem parseExtension_noPanic : NoPanic (parseExtension : Parser β _) := by
-  unfold parseExtension; nopanic
-macro_rules | `(tactic| nopanic_step) => `(tactic| exact parseExtension_noPanic)
+theorem parseExtension_clean : Clean (parseExtension : Parser β _) := by
+  unfold parseExtension; clean
+macro_rules | `(tactic| clean_step) => `(tactic| exact parseExtension_clean)
 
-theorem parseClientHelloExtension_noPanic : NoPanic (parseClientHelloExtension : Parser β _) := by
-  unfold parseClientHelloExtension; nopanic
-macro_rules | `(tactic| nopanic_step) => `(tactic| exact parseClientHelloExtension_noPanic)
+theorem parseClientHelloExtension_clean : Clean (parseClientHelloExtension : Parser β _) := by
+  unfold parseClientHelloExtension; clean
+macro_rules | `(tactic| clean_step) => `(tactic| exact parseClientHelloExtension_clean)
 
-theorem parseServerHelloExtension_noPanic : NoPanic (parseServerHelloExtension : Parser β _) := by
-  unfold parseServerHelloExtension; nopanic
-macro_rules | `(tactic| nopanic_step) => `(tactic| exact parseServerHelloExtension_noPanic)
+theorem parseServerHelloExtension_clean : Clean (parseServerHelloExtension : Parser β _) := by
+  unfold parseServerHelloExtension; clean
+macro_rules | `(tactic| clean_step) => `(tactic| exact parseServerHelloExtension_clean)
 
-theorem parseExtensionsD_noPanic (d : Dispatcher) : NoPanic (parseExtensionsD d : Parser β _) := by
-  unfold parseExtensionsD; nopanic
-macro_rules | `(tactic| nopanic_step) => `(tactic| exact parseExtensionsD_noPanic _)
+theorem parseExtensionsD_clean (d : Dispatcher) : Clean (parseExtensionsD d : Parser β _) := by
+  unfold parseExtensionsD; clean
+macro_rules | `(tactic| clean_step) => `(tactic| exact parseExtensionsD_clean _)
 
-theorem parseExtensions_noPanic : NoPanic (parseExtensions : Parser β _) := by
-  unfold parseExtensions; nopanic
-macro_rules | `(tactic| nopanic_step) => `(tactic| exact parseExtensions_noPanic)
+theorem parseExtensions_clean : Clean (parseExtensions : Parser β _) := by
+  unfold parseExtensions; clean
+macro_rules | `(tactic| clean_step) => `(tactic| exact parseExtensions_clean)
 
-theorem parseClientHelloExtensions_noPanic : NoPanic (parseClientHelloExtensions : Parser β _) := by
-  unfold parseClientHelloExtensions; nopanic
-macro_rules | `(tactic| nopanic_step) => `(tactic| exact parseClientHelloExtensions_noPanic)
+theorem parseClientHelloExtensions_clean : Clean (parseClientHelloExtensions : Parser β _) := by
+  unfold parseClientHelloExtensions; clean
+macro_rules | `(tactic| clean_step) => `(tactic| exact parseClientHelloExtensions_clean)
 
-theorem parseServerHelloExtensions_noPanic : NoPanic (parseServerHelloExtensions : Parser β _) := by
-  unfold parseServerHelloExtensions; nopanic
-macro_rules | `(tactic| nopanic_step) => `(tactic| exact parseServerHelloExtensions_noPanic)
+theorem parseServerHelloExtensions_clean : Clean (parseServerHelloExtensions : Parser β _) := by
+  unfold parseServerHelloExtensions; clean
+macro_rules | `(tactic| clean_step) => `(tactic| exact parseServerHelloExtensions_clean)
 
-theorem tagLD_noPanic (t : List Nat) (c : Parser β (Extension β)) (hc : NoPanic c) : NoPanic (tagLD t c : Parser β _) := by
-  unfold tagLD; nopanic
-macro_rules | `(tactic| nopanic_step) => `(tactic| refine tagLD_noPanic _ _ ?_)
+theorem tagLD_clean (t : List Nat) (c : Parser β (Extension β)) (hc : Clean c) : Clean (tagLD t c : Parser β _) := by
+  unfold tagLD; clean
+macro_rules | `(tactic| clean_step) => `(tactic| refine tagLD_clean _ _ ?_)
 
-theorem tagLen_noPanic (t : List Nat) (c : Nat → Parser β (Extension β)) (hc : ∀ n, NoPanic (c n)) : NoPanic (tagLen t c : Parser β _) := by
-  unfold tagLen; nopanic; exact hc _
-macro_rules | `(tactic| nopanic_step) => `(tactic| refine tagLen_noPanic _ _ (fun _ => ?_))
+theorem tagLen_clean (t : List Nat) (c : Nat → Parser β (Extension β)) (hc : ∀ n, Clean (c n)) : Clean (tagLen t c : Parser β _) := by
+  unfold tagLen; clean; exact hc _
+macro_rules | `(tactic| clean_step) => `(tactic| refine tagLen_clean _ _ (fun _ => ?_))
 
 
-theorem parseTagSni_noPanic : NoPanic (parseTagSni : Parser β _) := by
-  unfold parseTagSni; nopanic
-macro_rules | `(tactic| nopanic_step) => `(tactic| exact parseTagSni_noPanic)
+theorem parseTagSni_clean : Clean (parseTagSni : Parser β _) := by
+  unfold parseTagSni; clean
+macro_rules | `(tactic| clean_step) => `(tactic| exact parseTagSni_clean)
 
-theorem parseTagMaxFragmentLength_noPanic : NoPanic (parseTagMaxFragmentLength : Parser β _) := by
-  unfold parseTagMaxFragmentLength; nopanic
-macro_rules | `(tactic| nopanic_step) => `(tactic| exact parseTagMaxFragmentLength_noPanic)
+theorem parseTagMaxFragmentLength_clean : Clean (parseTagMaxFragmentLength : Parser β _) := by
+  unfold parseTagMaxFragmentLength; clean
+macro_rules | `(tactic| clean_step) => `(tactic| exact parseTagMaxFragmentLength_clean)
 
-theorem parseTagStatusRequest_noPanic : NoPanic (parseTagStatusRequest : Parser β _) := by
-  unfold parseTagStatusRequest; nopanic
-macro_rules | `(tactic| nopanic_step) => `(tactic| exact parseTagStatusRequest_noPanic)
+theorem parseTagStatusRequest_clean : Clean (parseTagStatusRequest : Parser β _) := by
+  unfold parseTagStatusRequest; clean
+macro_rules | `(tactic| clean_step) => `(tactic| exact parseTagStatusRequest_clean)
 
-theorem parseTagEllipticCurves_noPanic : NoPanic (parseTagEllipticCurves : Parser β _) := by
-  unfold parseTagEllipticCurves; nopanic
-macro_rules | `(tactic| nopanic_step) => `(tactic| exact parseTagEllipticCurves_noPanic)
+theorem parseTagEllipticCurves_clean : Clean (parseTagEllipticCurves : Parser β _) := by
+  unfold parseTagEllipticCurves; clean
+macro_rules | `(tactic| clean_step) => `(tactic| exact parseTagEllipticCurves_clean)
 
-theorem parseTagEcPointFormats_noPanic : NoPanic (parseTagEcPointFormats : Parser β _) := by
-  unfold parseTagEcPointFormats; nopanic
-macro_rules | `(tactic| nopanic_step) => `(tactic| exact parseTagEcPointFormats_noPanic)
+theorem parseTagEcPointFormats_clean : Clean (parseTagEcPointFormats : Parser β _) := by
+  unfold parseTagEcPointFormats; clean
+macro_rules | `(tactic| clean_step) => `(tactic| exact parseTagEcPointFormats_clean)
 
-theorem parseTagSignatureAlgorithms_noPanic : NoPanic (parseTagSignatureAlgorithms : Parser β _) := by
-  unfold parseTagSignatureAlgorithms; nopanic
-macro_rules | `(tactic| nopanic_step) => `(tactic| exact parseTagSignatureAlgorithms_noPanic)
+theorem parseTagSignatureAlgorithms_clean : Clean (parseTagSignatureAlgorithms : Parser β _) := by
+  unfold parseTagSignatureAlgorithms; clean
+macro_rules | `(tactic| clean_step) => `(tactic| exact parseTagSignatureAlgorithms_clean)
 
-theorem parseTagHeartbeat_noPanic : NoPanic (parseTagHeartbeat : Parser β _) := by
-  unfold parseTagHeartbeat; nopanic
-macro_rules | `(tactic| nopanic_step) => `(tactic| exact parseTagHeartbeat_noPanic)
+theorem parseTagHeartbeat_clean : Clean (parseTagHeartbeat : Parser β _) := by
+  unfold parseTagHeartbeat; clean
+macro_rules | `(tactic| clean_step) => `(tactic| exact parseTagHeartbeat_clean)
 
-theorem parseTagEncryptThenMac_noPanic : NoPanic (parseTagEncryptThenMac : Parser β _) := by
-  unfold parseTagEncryptThenMac; nopanic
-macro_rules | `(tactic| nopanic_step) => `(tactic| exact parseTagEncryptThenMac_noPanic)
+theorem parseTagEncryptThenMac_clean : Clean (parseTagEncryptThenMac : Parser β _) := by
+  unfold parseTagEncryptThenMac; clean
+macro_rules | `(tactic| clean_step) => `(tactic| exact parseTagEncryptThenMac_clean)
 
-theorem parseTagExtendedMasterSecret_noPanic : NoPanic (parseTagExtendedMasterSecret : Parser β _) := by
-  unfold parseTagExtendedMasterSecret; nopanic
-macro_rules | `(tactic| nopanic_step) => `(tactic| exact parseTagExtendedMasterSecret_noPanic)
+theorem parseTagExtendedMasterSecret_clean : Clean (parseTagExtendedMasterSecret : Parser β _) := by
+  unfold parseTagExtendedMasterSecret; clean
+macro_rules | `(tactic| clean_step) => `(tactic| exact parseTagExtendedMasterSecret_clean)
 
-theorem parseTagSessionTicket_noPanic : NoPanic (parseTagSessionTicket : Parser β _) := by
-  unfold parseTagSessionTicket; nopanic
-macro_rules | `(tactic| nopanic_step) => `(tactic| exact parseTagSessionTicket_noPanic)
+theorem parseTagSessionTicket_clean : Clean (parseTagSessionTicket : Parser β _) := by
+  unfold parseTagSessionTicket; clean
+macro_rules | `(tactic| clean_step) => `(tactic| exact parseTagSessionTicket_clean)
 
-theorem parseTagKeyShare_noPanic : NoPanic (parseTagKeyShare : Parser β _) := by
-  unfold parseTagKeyShare; nopanic
-macro_rules | `(tactic| nopanic_step) => `(tactic| exact parseTagKeyShare_noPanic)
+theorem parseTagKeyShare_clean : Clean (parseTagKeyShare : Parser β _) := by
+  unfold parseTagKeyShare; clean
+macro_rules | `(tactic| clean_step) => `(tactic| exact parseTagKeyShare_clean)
 
-theorem parseTagPreSharedKey_noPanic : NoPanic (parseTagPreSharedKey : Parser β _) := by
-  unfold parseTagPreSharedKey; nopanic
-macro_rules | `(tactic| nopanic_step) => `(tactic| exact parseTagPreSharedKey_noPanic)
+theorem parseTagPreSharedKey_clean : Clean (parseTagPreSharedKey : Parser β _) := by
+  unfold parseTagPreSharedKey; clean
+macro_rules | `(tactic| clean_step) => `(tactic| exact parseTagPreSharedKey_clean)
 
-theorem parseTagEarlyData_noPanic : NoPanic (parseTagEarlyData : Parser β _) := by
-  unfold parseTagEarlyData; nopanic
-macro_rules | `(tactic| nopanic_step) => `(tactic| exact parseTagEarlyData_noPanic)
+theorem parseTagEarlyData_clean : Clean (parseTagEarlyData : Parser β _) := by
+  unfold parseTagEarlyData; clean
+macro_rules | `(tactic| clean_step) => `(tactic| exact parseTagEarlyData_clean)
 
-theorem parseTagSupportedVersions_noPanic : NoPanic (parseTagSupportedVersions : Parser β _) := by
-  unfold parseTagSupportedVersions; nopanic
-macro_rules | `(tactic| nopanic_step) => `(tactic| exact parseTagSupportedVersions_noPanic)
+theorem parseTagSupportedVersions_clean : Clean (parseTagSupportedVersions : Parser β _) := by
+  unfold parseTagSupportedVersions; clean
+macro_rules | `(tactic| clean_step) => `(tactic| exact parseTagSupportedVersions_clean)
 
-theorem parseTagCookie_noPanic : NoPanic (parseTagCookie : Parser β _) := by
-  unfold parseTagCookie; nopanic
-macro_rules | `(tactic| nopanic_step) => `(tactic| exact parseTagCookie_noPanic)
+theorem parseTagCookie_clean : Clean (parseTagCookie : Parser β _) := by
+  unfold parseTagCookie; clean
+macro_rules | `(tactic| clean_step) => `(tactic| exact parseTagCookie_clean)
 
-theorem parseTagPskModes_noPanic : NoPanic (parseTagPskModes : Parser β _) := by
-  unfold parseTagPskModes; nopanic
-macro_rules | `(tactic| nopanic_step) => `(tactic| exact parseTagPskModes_noPanic)
+theorem parseTagPskModes_clean : Clean (parseTagPskModes : Parser β _) := by
+  unfold parseTagPskModes; clean
+macro_rules | `(tactic| clean_step) => `(tactic| exact parseTagPskModes_clean)
 
-theorem parseDhParams_noPanic : NoPanic (parseDhParams : Parser β _) := by
-  unfold parseDhParams; nopanic
-macro_rules | `(tactic| nopanic_step) => `(tactic| exact parseDhParams_noPanic)
+theorem parseDhParams_clean : Clean (parseDhParams : Parser β _) := by
+  unfold parseDhParams; clean
+macro_rules | `(tactic| clean_step) => `(tactic| exact parseDhParams_clean)
 
-theorem parseExplicitPrime_noPanic : NoPanic (parseExplicitPrime : Parser β _) := by
-  unfold parseExplicitPrime; nopanic
-macro_rules | `(tactic| nopanic_step) => `(tactic| exact parseExplicitPrime_noPanic)
+theorem parseExplicitPrime_clean : Clean (parseExplicitPrime : Parser β _) := by
+  unfold parseExplicitPrime; clean
+macro_rules | `(tactic| clean_step) => `(tactic| exact parseExplicitPrime_clean)
 
-theorem parseEcContent_noPanic (ct : Nat) : NoPanic (parseEcContent ct : Parser β _) := by
-  unfold parseEcContent; nopanic
-macro_rules | `(tactic| nopanic_step) => `(tactic| exact parseEcContent_noPanic _)
+theorem parseEcContent_clean (ct : Nat) : Clean (parseEcContent ct : Parser β _) := by
+  unfold parseEcContent; clean
+macro_rules | `(tactic| clean_step) => `(tactic| exact parseEcContent_clean _)
 
-theorem parseEcParameters_noPanic : NoPanic (parseEcParameters : Parser β _) := by
-  unfold parseEcParameters; nopanic
-macro_rules | `(tactic| nopanic_step) => `(tactic| exact parseEcParameters_noPanic)
+theorem parseEcParameters_clean : Clean (parseEcParameters : Parser β _) := by
+  unfold parseEcParameters; clean
+macro_rules | `(tactic| clean_step) => `(tactic| exact parseEcParameters_clean)
 
-theorem parseEcdhParams_noPanic : NoPanic (parseEcdhParams : Parser β _) := by
-  unfold parseEcdhParams; nopanic
-macro_rules | `(tactic| nopanic_step) => `(tactic| exact parseEcdhParams_noPanic)
+theorem parseEcdhParams_clean : Clean (parseEcdhParams : Parser β _) := by
+  unfold parseEcdhParams; clean
+macro_rules | `(tactic| clean_step) => `(tactic| exact parseEcdhParams_clean)
 
-theorem parseNamedGroups_noPanic : NoPanic (parseNamedGroups : Parser β _) := by
-  unfold parseNamedGroups; nopanic
-macro_rules | `(tactic| nopanic_step) => `(tactic| exact parseNamedGroups_noPanic)
+theorem parseNamedGroups_clean : Clean (parseNamedGroups : Parser β _) := by
+  unfold parseNamedGroups; clean
+macro_rules | `(tactic| clean_step) => `(tactic| exact parseNamedGroups_clean)
 
-theorem parseDigitallySignedOld_noPanic : NoPanic (parseDigitallySignedOld : Parser β _) := by
-  unfold parseDigitallySignedOld; nopanic
-macro_rules | `(tactic| nopanic_step) => `(tactic| exact parseDigitallySignedOld_noPanic)
+theorem parseDigitallySignedOld_clean : Clean (parseDigitallySignedOld : Parser β _) := by
+  unfold parseDigitallySignedOld; clean
+macro_rules | `(tactic| clean_step) => `(tactic| exact parseDigitallySignedOld_clean)
 
-theorem parseDigitallySigned_noPanic : NoPanic (parseDigitallySigned : Parser β _) := by
-  unfold parseDigitallySigned; nopanic
-macro_rules | `(tactic| nopanic_step) => `(tactic| exact parseDigitallySigned_noPanic)
+theorem parseDigitallySigned_clean : Clean (parseDigitallySigned : Parser β _) := by
+  unfold parseDigitallySigned; clean
+macro_rules | `(tactic| clean_step) => `(tactic| exact parseDigitallySigned_clean)
 
-theorem parseContentAndSignature_noPanic {α : Type} (f : Parser β α) (hf : NoPanic f) (ext : Bool) :
-    NoPanic (parseContentAndSignature f ext) := by
-  unfold parseContentAndSignature; cases ext <;> simp <;> nopanic
+theorem parseContentAndSignature_clean {α : Type} (f : Parser β α) (hf : Clean f) (ext : Bool) :
+    Clean (parseContentAndSignature f ext) := by
+  unfold parseContentAndSignature; cases ext <;> simp <;> clean
 
-theorem parseLogId_noPanic : NoPanic (parseLogId : Parser β _) := by
+theorem parseLogId_clean : Clean (parseLogId : Parser β _) := by
   intro i; unfold parseLogId Tls.take
   by_cases h : 32 ≤ i.length <;> simp [h, Res.bind, List.length_take, Nat.min_eq_left]
-macro_rules | `(tactic| nopanic_step) => `(tactic| exact parseLogId_noPanic)
+macro_rules | `(tactic| clean_step) => `(tactic| exact parseLogId_clean)
 
-theorem parseSctContentEntry_noPanic : NoPanic (parseSctContentEntry : Parser β _) := by
-  unfold parseSctContentEntry; nopanic
-macro_rules | `(tactic| nopanic_step) => `(tactic| exact parseSctContentEntry_noPanic)
+theorem parseSctContentEntry_clean : Clean (parseSctContentEntry : Parser β _) := by
+  unfold parseSctContentEntry; clean
+macro_rules | `(tactic| clean_step) => `(tactic| exact parseSctContentEntry_clean)
 
-theorem parseSct_noPanic : NoPanic (parseSct : Parser β _) := by
-  unfold parseSct; nopanic
-macro_rules | `(tactic| nopanic_step) => `(tactic| exact parseSct_noPanic)
+theorem parseSct_clean : Clean (parseSct : Parser β _) := by
+  unfold parseSct; clean
+macro_rules | `(tactic| clean_step) => `(tactic| exact parseSct_clean)
 
-theorem parseSctList_noPanic : NoPanic (parseSctList : Parser β _) := by
-  unfold parseSctList; nopanic
-macro_rules | `(tactic| nopanic_step) => `(tactic| exact parseSctList_noPanic)
+theorem parseSctList_clean : Clean (parseSctList : Parser β _) := by
+  unfold parseSctList; clean
+macro_rules | `(tactic| clean_step) => `(tactic| exact parseSctList_clean)
 
-theorem parseDtlsRecordHeader_noPanic : NoPanic (parseDtlsRecordHeader : Parser β _) := by
-  unfold parseDtlsRecordHeader; nopanic
-macro_rules | `(tactic| nopanic_step) => `(tactic| exact parseDtlsRecordHeader_noPanic)
+theorem parseDtlsRecordHeader_clean : Clean (parseDtlsRecordHeader : Parser β _) := by
+  unfold parseDtlsRecordHeader; clean
+macro_rules | `(tactic| clean_step) => `(tactic| exact parseDtlsRecordHeader_clean)
 
-theorem parseDtlsClientHello_noPanic : NoPanic (parseDtlsClientHello : Parser β _) := by
-  unfold parseDtlsClientHello; nopanic
-macro_rules | `(tactic| nopanic_step) => `(tactic| exact parseDtlsClientHello_noPanic)
+theorem parseDtlsClientHello_clean : Clean (parseDtlsClientHello : Parser β _) := by
+  unfold parseDtlsClientHello; clean
+macro_rules | `(tactic| clean_step) => `(tactic| exact parseDtlsClientHello_clean)
 
-theorem parseDtlsHelloVerifyRequest_noPanic : NoPanic (parseDtlsHelloVerifyRequest : Parser β _) := by
-  unfold parseDtlsHelloVerifyRequest; nopanic
-macro_rules | `(tactic| nopanic_step) => `(tactic| exact parseDtlsHelloVerifyRequest_noPanic)
+theorem parseDtlsHelloVerifyRequest_clean : Clean (parseDtlsHelloVerifyRequest : Parser β _) := by
+  unfold parseDtlsHelloVerifyRequest; clean
+macro_rules | `(tactic| clean_step) => `(tactic| exact parseDtlsHelloVerifyRequest_clean)
 
-theorem parseDtlsBody_noPanic (t l : Nat) (f : Bool) : NoPanic (parseDtlsBody t l f : Parser β _) := by
-  unfold parseDtlsBody; nopanic
-macro_rules | `(tactic| nopanic_step) => `(tactic| exact parseDtlsBody_noPanic _ _)
+theorem parseDtlsBody_clean (t l : Nat) (f : Bool) : Clean (parseDtlsBody t l f : Parser β _) := by
+  unfold parseDtlsBody; clean
+macro_rules | `(tactic| clean_step) => `(tactic| exact parseDtlsBody_clean _ _)
 
-theorem parseDtlsMessageHandshake_noPanic : NoPanic (parseDtlsMessageHandshake : Parser β _) := by
-  unfold parseDtlsMessageHandshake; nopanic
-macro_rules | `(tactic| nopanic_step) => `(tactic| exact parseDtlsMessageHandshake_noPanic)
+theorem parseDtlsMessageHandshake_clean : Clean (parseDtlsMessageHandshake : Parser β _) := by
+  unfold parseDtlsMessageHandshake; clean
+macro_rules | `(tactic| clean_step) => `(tactic| exact parseDtlsMessageHandshake_clean)
 
-theorem parseDtlsMessageCCS_noPanic : NoPanic (parseDtlsMessageCCS : Parser β _) := by
-  unfold parseDtlsMessageCCS; nopanic
-macro_rules | `(tactic| nopanic_step) => `(tactic| exact parseDtlsMessageCCS_noPanic)
+theorem parseDtlsMessageCCS_clean : Clean (parseDtlsMessageCCS : Parser β _) := by
+  unfold parseDtlsMessageCCS; clean
+macro_rules | `(tactic| clean_step) => `(tactic| exact parseDtlsMessageCCS_clean)
 
-theorem parseDtlsMessageAlert_noPanic : NoPanic (parseDtlsMessageAlert : Parser β _) := by
-  unfold parseDtlsMessageAlert; nopanic
-macro_rules | `(tactic| nopanic_step) => `(tactic| exact parseDtlsMessageAlert_noPanic)
+theorem parseDtlsMessageAlert_clean : Clean (parseDtlsMessageAlert : Parser β _) := by
+  unfold parseDtlsMessageAlert; clean
+macro_rules | `(tactic| clean_step) => `(tactic| exact parseDtlsMessageAlert_clean)
 
-theorem parseDtlsRecordWithHeader_noPanic (hdr : DtlsHeader) : NoPanic (parseDtlsRecordWithHeader hdr : Parser β _) := by
-  unfold parseDtlsRecordWithHeader; nopanic
-macro_rules | `(tactic| nopanic_step) => `(tactic| exact parseDtlsRecordWithHeader_noPanic _)
+theorem parseDtlsRecordWithHeader_clean (hdr : DtlsHeader) : Clean (parseDtlsRecordWithHeader hdr : Parser β _) := by
+  unfold parseDtlsRecordWithHeader; clean
+macro_rules | `(tactic| clean_step) => `(tactic| exact parseDtlsRecordWithHeader_clean _)
 
-theorem parseDtlsPlaintextRecord_noPanic : NoPanic (parseDtlsPlaintextRecord : Parser β _) := by
-  unfold parseDtlsPlaintextRecord; nopanic
-macro_rules | `(tactic| nopanic_step) => `(tactic| exact parseDtlsPlaintextRecord_noPanic)
+theorem parseDtlsPlaintextRecord_clean : Clean (parseDtlsPlaintextRecord : Parser β _) := by
+  unfold parseDtlsPlaintextRecord; clean
+macro_rules | `(tactic| clean_step) => `(tactic| exact parseDtlsPlaintextRecord_clean)
 
-theorem parseDtlsPlaintextRecords_noPanic : NoPanic (parseDtlsPlaintextRecords : Parser β _) := by
-  unfold parseDtlsPlaintextRecords; nopanic
-macro_rules | `(tactic| nopanic_step) => `(tactic| exact parseDtlsPlaintextRecords_noPanic)
+theorem parseDtlsPlaintextRecords_clean : Clean (parseDtlsPlaintextRecords : Parser β _) := by
+  unfold parseDtlsPlaintextRecords; clean
+macro_rules | `(tactic| clean_step) => `(tactic| exact parseDtlsPlaintextRecords_clean)
 
+
+/-! ### Headline: every public parsing entry point never panics (and never answers `Failure`) -/
+
+theorem parseU16All_noPanic : NoPanic (parseU16All : Parser β _) := parseU16All_clean.noPanic
+theorem optExtBlock_noPanic : NoPanic (optExtBlock : Parser β _) := optExtBlock_clean.noPanic
+theorem parseClientHello_noPanic : NoPanic (parseClientHello : Parser β _) := parseClientHello_clean.noPanic
+theorem parseServerHello13d18_noPanic : NoPanic (parseServerHello13d18 : Parser β _) := parseServerHello13d18_clean.noPanic
+theorem parseServerHello_noPanic : NoPanic (parseServerHello : Parser β _) := parseServerHello_clean.noPanic
+theorem parseMsgServerHello_noPanic : NoPanic (parseMsgServerHello : Parser β _) := parseMsgServerHello_clean.noPanic
+theorem parseHelloRetryRequest_noPanic : NoPanic (parseHelloRetryRequest : Parser β _) := parseHelloRetryRequest_clean.noPanic
+theorem parseCerts_noPanic : NoPanic (parseCerts : Parser β _) := parseCerts_clean.noPanic
+theorem parseCertificate_noPanic : NoPanic (parseCertificate : Parser β _) := parseCertificate_clean.noPanic
+theorem parseCaList_noPanic : NoPanic (parseCaList : Parser β _) := parseCaList_clean.noPanic
+theorem parseCertRequestNoSigAlg_noPanic : NoPanic (parseCertRequestNoSigAlg : Parser β _) := parseCertRequestNoSigAlg_clean.noPanic
+theorem parseCertRequestFull_noPanic : NoPanic (parseCertRequestFull : Parser β _) := parseCertRequestFull_clean.noPanic
+theorem parseCertRequest_noPanic : NoPanic (parseCertRequest : Parser β _) := parseCertRequest_clean.noPanic
+theorem parseCertStatus_noPanic : NoPanic (parseCertStatus : Parser β _) := parseCertStatus_clean.noPanic
+theorem parseNextProtocol_noPanic : NoPanic (parseNextProtocol : Parser β _) := parseNextProtocol_clean.noPanic
+theorem parseMessageHandshake_noPanic : NoPanic (parseMessageHandshake : Parser β _) := parseMessageHandshake_clean.noPanic
+theorem parseRecordHeader_noPanic : NoPanic (parseRecordHeader : Parser β _) := parseRecordHeader_clean.noPanic
+theorem parseMessageCCS_noPanic : NoPanic (parseMessageCCS : Parser β _) := parseMessageCCS_clean.noPanic
+theorem parseMessageAlert_noPanic : NoPanic (parseMessageAlert : Parser β _) := parseMessageAlert_clean.noPanic
+theorem parseMessageAppData_noPanic : NoPanic (parseMessageAppData : Parser β _) := parseMessageAppData_clean.noPanic
+theorem parsePlaintext_noPanic : NoPanic (parsePlaintext : Parser β _) := parsePlaintext_clean.noPanic
+theorem parseEncrypted_noPanic : NoPanic (parseEncrypted : Parser β _) := parseEncrypted_clean.noPanic
+theorem parseRawRecord_noPanic : NoPanic (parseRawRecord : Parser β _) := parseRawRecord_clean.noPanic
+theorem tlsParser_noPanic : NoPanic (tlsParser : Parser β _) := tlsParser_clean.noPanic
+theorem tlsParserMany_noPanic : NoPanic (tlsParserMany : Parser β _) := tlsParserMany_clean.noPanic
+theorem parseSniHostname_noPanic : NoPanic (parseSniHostname : Parser β _) := parseSniHostname_clean.noPanic
+theorem parseSniContent_noPanic : NoPanic (parseSniContent : Parser β _) := parseSniContent_clean.noPanic
+theorem parseMaxFragmentLengthContent_noPanic : NoPanic (parseMaxFragmentLengthContent : Parser β _) := parseMaxFragmentLengthContent_clean.noPanic
+theorem parseEllipticCurvesContent_noPanic : NoPanic (parseEllipticCurvesContent : Parser β _) := parseEllipticCurvesContent_clean.noPanic
+theorem parseEcPointFormatsContent_noPanic : NoPanic (parseEcPointFormatsContent : Parser β _) := parseEcPointFormatsContent_clean.noPanic
+theorem parseSignatureAlgorithmsContent_noPanic : NoPanic (parseSignatureAlgorithmsContent : Parser β _) := parseSignatureAlgorithmsContent_clean.noPanic
+theorem parseHeartbeatContent_noPanic : NoPanic (parseHeartbeatContent : Parser β _) := parseHeartbeatContent_clean.noPanic
+theorem parseAlpnContent_noPanic : NoPanic (parseAlpnContent : Parser β _) := parseAlpnContent_clean.noPanic
+theorem parseSctContent_noPanic : NoPanic (parseSctContent : Parser β _) := parseSctContent_clean.noPanic
+theorem parsePskModesContent_noPanic : NoPanic (parsePskModesContent : Parser β _) := parsePskModesContent_clean.noPanic
+theorem parseRenegotiationInfoContent_noPanic : NoPanic (parseRenegotiationInfoContent : Parser β _) := parseRenegotiationInfoContent_clean.noPanic
+theorem parseEncryptedServerName_noPanic : NoPanic (parseEncryptedServerName : Parser β _) := parseEncryptedServerName_clean.noPanic
+theorem parseOidFilter_noPanic : NoPanic (parseOidFilter : Parser β _) := parseOidFilter_clean.noPanic
+theorem parseOidFilters_noPanic : NoPanic (parseOidFilters : Parser β _) := parseOidFilters_clean.noPanic
+theorem parseExtensionUnknown_noPanic : NoPanic (parseExtensionUnknown : Parser β _) := parseExtensionUnknown_clean.noPanic
+theorem parseExtension_noPanic : NoPanic (parseExtension : Parser β _) := parseExtension_clean.noPanic
+theorem parseClientHelloExtension_noPanic : NoPanic (parseClientHelloExtension : Parser β _) := parseClientHelloExtension_clean.noPanic
+theorem parseServerHelloExtension_noPanic : NoPanic (parseServerHelloExtension : Parser β _) := parseServerHelloExtension_clean.noPanic
+theorem parseExtensions_noPanic : NoPanic (parseExtensions : Parser β _) := parseExtensions_clean.noPanic
+theorem parseClientHelloExtensions_noPanic : NoPanic (parseClientHelloExtensions : Parser β _) := parseClientHelloExtensions_clean.noPanic
+theorem parseServerHelloExtensions_noPanic : NoPanic (parseServerHelloExtensions : Parser β _) := parseServerHelloExtensions_clean.noPanic
+theorem parseTagSni_noPanic : NoPanic (parseTagSni : Parser β _) := parseTagSni_clean.noPanic
+theorem parseTagMaxFragmentLength_noPanic : NoPanic (parseTagMaxFragmentLength : Parser β _) := parseTagMaxFragmentLength_clean.noPanic
+theorem parseTagStatusRequest_noPanic : NoPanic (parseTagStatusRequest : Parser β _) := parseTagStatusRequest_clean.noPanic
+theorem parseTagEllipticCurves_noPanic : NoPanic (parseTagEllipticCurves : Parser β _) := parseTagEllipticCurves_clean.noPanic
+theorem parseTagEcPointFormats_noPanic : NoPanic (parseTagEcPointFormats : Parser β _) := parseTagEcPointFormats_clean.noPanic
+theorem parseTagSignatureAlgorithms_noPanic : NoPanic (parseTagSignatureAlgorithms : Parser β _) := parseTagSignatureAlgorithms_clean.noPanic
+theorem parseTagHeartbeat_noPanic : NoPanic (parseTagHeartbeat : Parser β _) := parseTagHeartbeat_clean.noPanic
+theorem parseTagEncryptThenMac_noPanic : NoPanic (parseTagEncryptThenMac : Parser β _) := parseTagEncryptThenMac_clean.noPanic
+theorem parseTagExtendedMasterSecret_noPanic : NoPanic (parseTagExtendedMasterSecret : Parser β _) := parseTagExtendedMasterSecret_clean.noPanic
+theorem parseTagSessionTicket_noPanic : NoPanic (parseTagSessionTicket : Parser β _) := parseTagSessionTicket_clean.noPanic
+theorem parseTagKeyShare_noPanic : NoPanic (parseTagKeyShare : Parser β _) := parseTagKeyShare_clean.noPanic
+theorem parseTagPreSharedKey_noPanic : NoPanic (parseTagPreSharedKey : Parser β _) := parseTagPreSharedKey_clean.noPanic
+theorem parseTagEarlyData_noPanic : NoPanic (parseTagEarlyData : Parser β _) := parseTagEarlyData_clean.noPanic
+theorem parseTagSupportedVersions_noPanic : NoPanic (parseTagSupportedVersions : Parser β _) := parseTagSupportedVersions_clean.noPanic
+theorem parseTagCookie_noPanic : NoPanic (parseTagCookie : Parser β _) := parseTagCookie_clean.noPanic
+theorem parseTagPskModes_noPanic : NoPanic (parseTagPskModes : Parser β _) := parseTagPskModes_clean.noPanic
+theorem parseDhParams_noPanic : NoPanic (parseDhParams : Parser β _) := parseDhParams_clean.noPanic
+theorem parseExplicitPrime_noPanic : NoPanic (parseExplicitPrime : Parser β _) := parseExplicitPrime_clean.noPanic
+theorem parseEcParameters_noPanic : NoPanic (parseEcParameters : Parser β _) := parseEcParameters_clean.noPanic
+theorem parseEcdhParams_noPanic : NoPanic (parseEcdhParams : Parser β _) := parseEcdhParams_clean.noPanic
+theorem parseNamedGroups_noPanic : NoPanic (parseNamedGroups : Parser β _) := parseNamedGroups_clean.noPanic
+theorem parseDigitallySignedOld_noPanic : NoPanic (parseDigitallySignedOld : Parser β _) := parseDigitallySignedOld_clean.noPanic
+theorem parseDigitallySigned_noPanic : NoPanic (parseDigitallySigned : Parser β _) := parseDigitallySigned_clean.noPanic
+theorem parseLogId_noPanic : NoPanic (parseLogId : Parser β _) := parseLogId_clean.noPanic
+theorem parseSctContentEntry_noPanic : NoPanic (parseSctContentEntry : Parser β _) := parseSctContentEntry_clean.noPanic
+theorem parseSct_noPanic : NoPanic (parseSct : Parser β _) := parseSct_clean.noPanic
+theorem parseSctList_noPanic : NoPanic (parseSctList : Parser β _) := parseSctList_clean.noPanic
+theorem parseDtlsRecordHeader_noPanic : NoPanic (parseDtlsRecordHeader : Parser β _) := parseDtlsRecordHeader_clean.noPanic
+theorem parseDtlsClientHello_noPanic : NoPanic (parseDtlsClientHello : Parser β _) := parseDtlsClientHello_clean.noPanic
+theorem parseDtlsHelloVerifyRequest_noPanic : NoPanic (parseDtlsHelloVerifyRequest : Parser β _) := parseDtlsHelloVerifyRequest_clean.noPanic
+theorem parseDtlsMessageHandshake_noPanic : NoPanic (parseDtlsMessageHandshake : Parser β _) := parseDtlsMessageHandshake_clean.noPanic
+theorem parseDtlsMessageCCS_noPanic : NoPanic (parseDtlsMessageCCS : Parser β _) := parseDtlsMessageCCS_clean.noPanic
+theorem parseDtlsMessageAlert_noPanic : NoPanic (parseDtlsMessageAlert : Parser β _) := parseDtlsMessageAlert_clean.noPanic
+theorem parseDtlsPlaintextRecord_noPanic : NoPanic (parseDtlsPlaintextRecord : Parser β _) := parseDtlsPlaintextRecord_clean.noPanic
+theorem parseDtlsPlaintextRecords_noPanic : NoPanic (parseDtlsPlaintextRecords : Parser β _) := parseDtlsPlaintextRecords_clean.noPanic
 
 /-! ### The defragmenter never panics, for any payload parser that does not and any history -/
 
@@ -582,7 +664,7 @@ theorem rpRun_noPanic {α : Type} (R : RecordHeader → Parser β α) (hR : ∀ 
 /-- C01 for `TlsRecordsParser`: any sequence of `parse_record` / `parse_record_nocopy` / `reset`. -/
 theorem recordsParser_noPanic (ops : List (RPOp β)) :
     ∀ o ∈ (rpRun parseRecordWithHeader RPState.init ops).2, o ≠ some .panic :=
-  rpRun_noPanic parseRecordWithHeader parseRecordWithHeader_noPanic ops RPState.init
+  rpRun_noPanic parseRecordWithHeader (fun h => (parseRecordWithHeader_clean h).noPanic) ops RPState.init
 
 -- non-vacuity: a concrete two-fragment history (empty first fragment, then a record)
 example : (rpRun (β := Fin 256) parseRecordWithHeader RPState.init
